@@ -373,6 +373,9 @@ func checkC03(c *Check) {
 		c.Ob("R4", "open-payment enumeration keeps only State==PaymentOpen", fn.Pos(), ok, "closed payments would be settled / closed again")
 	}
 
+	// ---- R6 the payment enumeration used by settlement selects exactly the account's own payments (key layout)
+	c.keyLayoutsRule("R6", []string{"x/escrow/keeper"}, 1, 2)
+
 	// ---- R5 closed records pass through the withdraw helper; helper shape
 	wd := map[string]*ssa.Function{}
 	for _, fn := range kfuncs {
